@@ -901,6 +901,10 @@ class C04(StepBase):
             return ev
         exp = s.split(" ; ")
         items = i.split(" ; ")
+        if items[-1] != "plain=ok":
+            ev.judge = "stepthrough() and stepthrough_with_data() disagree on this section"
+            return ev
+        items = items[:-1]
         match = exp[-1] == "match"
         exp = exp[:-1]
         ev.tags.append("match" if match else "nomatch")
@@ -985,11 +989,24 @@ class LinesBase(Prop):
         for _ in range(600 if tier == "quick" else 20000):
             yield {"kind": "lines", "lines": gen_line_case(rng, tier), "final_newline": rng.random() < 0.5,
                    "eol": rng.choice(["\n", "\n", "\r\n"]), "chunks": (rng.randint(0, 10 ** 6) if rng.random() < 0.3 else None)}
+        for _ in range(2 if tier == "quick" else 30):
+            # long files: hundreds of sections, thousands of lines, an error (or not) near the end
+            lines = []
+            for k in range(rng.randint(300, 600)):
+                lines.append(rng.choice(HEADERS))
+                lines += [rng.choice(NONTERM) for _ in range(rng.randint(0, 4))]
+                lines.append(rng.choice(TERM))
+                lines += [""] * rng.choice([0, 1, 1, 2])
+            if rng.random() < 0.6:
+                lines.insert(rng.randint(len(lines) - 40, len(lines)), render_class(rng, rng.choice(CLASSES)))
+            yield {"kind": "lines", "lines": lines, "final_newline": rng.random() < 0.5, "eol": rng.choice(["\n", "\r\n"])}
         for _ in range(6 if tier == "quick" else 60):
             # very long lines (several times 64 KiB): one physical line must stay one line
             lines = gen_line_case(rng, tier)
             n = rng.choice([65537, 140000, 200001, 300000])
-            long_line = rng.choice(["7" * n, "x" * n, "chain 0 " + "N" * n + " 9 + 0 9 b 9 + 0 9 1", rng.choice(HEADERS)[:-1] + "1" * n])
+            # (digit strings are kept to a few thousand digits: the model computes the numeral's value)
+            long_line = rng.choice(["7" * 4000 + "x" * n, "x" * n, "chain 0 " + "N" * n + " 9 + 0 9 b 9 + 0 9 1",
+                                    rng.choice(HEADERS)[:-1] + "1" * 3000 + " " * 0 + "y" * n, "3\t1\t" + "z" * n])
             lines.insert(rng.randint(0, len(lines)), long_line)
             yield {"kind": "lines", "lines": lines, "final_newline": rng.random() < 0.5, "eol": "\n"}
 
@@ -1172,7 +1189,7 @@ class C07(LinesBase):
                 if i != m:
                     ev.corr = "impl %r vs model %r" % (i, m)
                 return ev
-            ii, mm = i.split(" ; "), m.split(" ; ")
+            ii, mm = [x for x in i.split(" ; ") if not x.startswith("plain=")], [x for x in m.split(" ; ") if not x.startswith("plain=")]
             def obs(xs):
                 errs = [k for k, x in enumerate(xs) if x.startswith("E")]
                 return (xs[-1], len(xs) - 1 <= n + 1, (not errs) or errs[0] == len(xs) - 2)
